@@ -11,6 +11,9 @@ bytes written so far and `E` the instructions emitted so far:
   mentions no chunk boundary, so neither does what has been and will be emitted;
 * once a poll returns `None`, `E` is exactly the linear sweep of `W` and
   `finish` errs iff the incomplete tail is non-empty, reporting its offset and bytes.
+
+`C04_written` ties `W` to the history's own write events; `C04_no_retraction` says that
+what has been emitted stays a prefix of the sweep of whatever the stream grows into.
 -/
 import EtkVerif.Disasm.Lemmas
 namespace EtkVerif.C04
